@@ -510,16 +510,11 @@ Proof. intros w o H. unfold wstep. rewrite H. reflexivity. Qed.
 Lemma wstep_accepted_lemma : forall w o, accepted w o = true -> wstep w o = wapply w o.
 Proof. intros w o H. unfold wstep. rewrite H. reflexivity. Qed.
 
-(* SetStaticCANID: whether accepted or refused (same id again on an attached message), the CAN-ID
-   afterwards is the requested static id *)
-Lemma world_static_lemma : forall w x, world_can_id (wstep w (WSetStatic x)) = u32 x.
-Proof.
-  intros w x. unfold wstep. destruct (accepted w (WSetStatic x)) eqn:E.
-  - reflexivity.
-  - cbn [accepted] in E. apply negb_false_iff in E.
-    apply andb_true_iff in E. destruct E as [E Hx]. apply andb_true_iff in E. destruct E as [_ Hs].
-    rewrite world_cases_lemma, Hs. symmetry. apply Z.eqb_eq. exact Hx.
-Qed.
+(* SetStaticCANID: when accepted the CAN-ID afterwards is the requested static id (it is refused
+   when the attached message already has that id or the bus already knows it from another node) *)
+Lemma world_static_lemma : forall w x,
+  accepted w (WSetStatic x) = true -> world_can_id (wstep w (WSetStatic x)) = u32 x.
+Proof. intros w x E. unfold wstep. rewrite E. reflexivity. Qed.
 
 Lemma world_update_id_detached_lemma : forall w y,
   w_attached w = false -> world_can_id (wstep w (WUpdateID y)) = u32 y.
@@ -540,7 +535,7 @@ Lemma world_detach_apply : forall w o,
 Proof.
   intros w o Ho Hs. rewrite world_cases_lemma.
   destruct Ho as [-> | [-> | [-> | [-> | ->]]]];
-    cbn [wapply upd_links w_has_static w_attached w_on_bus w_id];
+    cbn [wapply upd_links upd_big w_has_static w_attached w_on_bus w_id];
     rewrite Hs; cbn [andb]; try reflexivity; rewrite andb_false_r; reflexivity.
 Qed.
 
@@ -555,8 +550,34 @@ Lemma world_reattach_lemma : forall w o,
 Proof.
   intros w o Ho Hs. rewrite world_cases_lemma.
   destruct Ho as [-> | [-> | [-> | [-> | ->]]]];
-    cbn [wapply upd_links w_has_static w_attached w_on_bus w_id w_prio w_node_id w_builders w_cur];
+    cbn [wapply upd_links upd_big w_has_static w_attached w_on_bus w_id w_prio w_node_id w_builders w_cur];
     rewrite Hs; reflexivity.
+Qed.
+
+(* a REFUSED attach attempt (AddNodeInterface refused because of an oversized message, a static
+   CAN-ID or a node id already on the bus; AddSentMessage refused) leaves the message where it was:
+   an interface that is not on the bus keeps giving the plain message id *)
+Lemma world_refused_attach_lemma : forall w o,
+  (o = WBusAdd \/ o = WAttach) -> accepted w o = false ->
+  w_has_static w = false -> w_attached w && w_on_bus w = false ->
+  world_can_id (wstep w o) = w_id w.
+Proof.
+  intros w o _ Ha Hs Hb. rewrite wstep_refused_lemma by exact Ha.
+  rewrite world_cases_lemma, Hs, Hb. reflexivity.
+Qed.
+
+(* the refusal reasons of AddNodeInterface that the model knows, each sufficient *)
+Lemma bus_add_refused_lemma : forall w,
+  w_big w = true \/ (w_on_bus2 w = true /\ w_node_id w = w_node2_id w) \/ w_on_bus w = true
+  \/ (w_attached w = true /\ w_has_static w = true /\ w_on_bus2 w = true /\ w_static2 w = Some (w_static w)) ->
+  accepted w WBusAdd = false.
+Proof.
+  intros w H. cbn [accepted]. unfold static2_is.
+  destruct H as [H | [[H1 H2] | [H | [H1 [H2 [H3 H4]]]]]].
+  - rewrite H. cbn. rewrite !andb_false_r. reflexivity.
+  - rewrite H1, H2, Z.eqb_refl. cbn. rewrite andb_false_r. reflexivity.
+  - rewrite H. reflexivity.
+  - rewrite H1, H2, H3, H4, Z.eqb_refl. cbn. rewrite !andb_false_r. reflexivity.
 Qed.
 
 (* operations on other entities (network membership of the bus, the second node's interface, the
